@@ -1462,7 +1462,9 @@ fn gen_system(ch: &mut Chooser) -> System {
     // sometimes an equation is listed twice (consistent, rank unchanged)
     if !rows.is_empty() && ch.odds("duplicate_row", 1, 6) {
         let k = ch.choose("duplicate_which", rows.len() as u32) as usize;
-        let r = rows[k].clone();
+        // verbatim, or as a scalar multiple (a power of two: exact)
+        let factor = *ch.pick("duplicate_factor", &[1.0f32, 1.0, 2.0, -0.5]);
+        let r: Vec<(usize, f32)> = rows[k].iter().map(|(j, a)| (*j, *a * factor)).collect();
         rows.push(r);
     }
     // drawn equation order
@@ -1569,9 +1571,19 @@ fn c19_solve<F: Function + MathFunction>(
     fixed_vals: &[f32],
 ) -> Result<Result<HashMap<Var, f32>, String>, String> {
     rt::catch(|| {
+        // an equation listed twice is passed as two handles on ONE function
+        // object (clones share the tape), not as two separately built ones
+        let mut built: Vec<(Node, F)> = vec![];
         let eqs: Vec<F> = eq_nodes
             .iter()
-            .map(|n| F::new(ctx, &[*n]).unwrap())
+            .map(|n| {
+                if let Some((_, f)) = built.iter().find(|(m, _)| m == n) {
+                    return f.clone();
+                }
+                let f = F::new(ctx, &[*n]).unwrap();
+                built.push((*n, f.clone()));
+                f
+            })
             .collect();
         let mut params: HashMap<Var, Parameter> = HashMap::new();
         for i in 0..sys.n {
